@@ -22,6 +22,67 @@ CHECKS = ("check_required_transitive_implementations", "check_field_type_narrowi
           "check_type_and_property_and_edge_invariants", "check_root_query_type_invariants", "get_field_origins", "check_ambiguous_field_origins")
 
 
+# r3: audited early exits inside loops of the validation code. Every other loop examines every element.
+#   (function, kind) -> (count, reason)
+EARLY_EXIT_AUDIT = {
+    ("check_fields_required_by_interface_implementations", "continue"):
+        (1, "the implemented interface is not defined: reported by check_required_transitive_implementations / the type checks"),
+    ("get_field_origins", "continue"):
+        (1, "the implemented interface is not defined: reported elsewhere; nothing to inherit from it"),
+}
+
+
+def early_exits(C, R):
+    """`Schema::parse` must accept exactly the valid schemas, so a validation loop may stop early only to *report an error*
+    (return Err(..)); any other break / continue / return inside a loop skips elements and makes acceptance depend on their
+    order. Such exits are inventoried per function and must be audited (new ones re-open the question)."""
+    R.rule("r3", "validation loops examine every element: early exits inside loops are `return Err(..)` or audited")
+    seen = {}
+    nloops = 0
+    for f in C.fns:
+        p = f["path"]
+        if not p.startswith(S) or "::tests::" in p or "::adapter::" in p or "::error::" in p:
+            continue
+        for n, anc in walk_with_ctx(f["body"]):
+            if n.get("k") == "loop":
+                nloops += 1
+            if n.get("k") not in ("break", "continue", "ret"):
+                continue
+            if not any(a.get("k") == "loop" for a in anc):
+                continue
+            mac = C.S(n.get("mac")) if n.get("mac") is not None else ""
+            if "desugar:ForLoop" in (mac or "") or "desugar:WhileLoop" in (mac or ""):
+                continue          # the loop's own exit
+            # a closure boundary between the loop and the exit means the exit belongs to the closure, not the loop
+            inner = None
+            for a in reversed(anc):
+                if a.get("k") in ("loop", "closure"):
+                    inner = a.get("k")
+                    break
+            if inner == "closure":
+                continue
+            if n["k"] == "ret":
+                e = strip(n.get("e", {}))
+                is_err = (e.get("k") == "ctor" and e.get("variant") == "Err") or \
+                    (e.get("k") == "call" and (e.get("callee") or "").endswith("FromResidual::from_residual"))
+                if is_err:
+                    continue      # stops to report an error (incl. `?`)
+            seen.setdefault((f["path"].split("::")[-1], n["k"]), []).append(n)
+    R.units["validation_loops"] = nloops
+    R.floor("r3", "loops in the schema validation code", nloops, 15)
+    for key, nodes in sorted(seen.items()):
+        ent = EARLY_EXIT_AUDIT.get(key)
+        if ent is None or len(nodes) > ent[0]:
+            R.fail("r3", "early-exit/%s/%s" % key, C.loc(nodes[-1]["sp"]),
+                   "`%s` inside a validation loop of %s (%d site(s), %d audited): the loop no longer examines every element, so whether an "
+                   "invalid schema is rejected depends on the order of its definitions / implements lists" % (key[1], key[0], len(nodes), ent[0] if ent else 0))
+        else:
+            R.ok("r3", "early-exit/%s/%s" % key, {"reason": ent[1]})
+    for key in EARLY_EXIT_AUDIT:
+        if key not in seen:
+            R.ok("r3", "early-exit/%s/%s" % key, {"note": "audited exit no longer present"}, nontrivial=False)
+
+
 def run(ctx, R):
     C = ctx.core
     R.rule("r1", "reachable panic-capable constructs = audited set + listed known findings")
@@ -61,6 +122,7 @@ def run(ctx, R):
             any(x.get("k") == "ctor" and x.get("variant") == "Ok" for x in walk(tail["then"])) and \
             any(x.get("k") == "ctor" and x.get("variant") == "Err" for x in walk(tail.get("els", {})))
     R.check(ok_tail, "r2", "ok-iff-no-errors", C.loc(f["sp"]), "Schema::new must end with `if errors.is_empty() { Ok(..) } else { Err(..) }`")
+    early_exits(C, R)
     # every error variant constructed somewhere in the schema module
     adt = C.adt_by_path.get(S + "error::InvalidSchemaError")
     if adt is None:
